@@ -32,6 +32,7 @@ void simfs_set_mkstemp_mode(int m);    /* 0600 (modern libc) or 0666 (historic: 
 void simfs_set_call_failures(int fdopen_k, int fchmod_k);
 void simfs_openlog_reset(void);
 int  simfs_openlog_get(const char *name, int j);
+extern int simfs_openlog_last_sid;
 void simns_reset(void);
 void simns_add_proto(const char *name, int number);
 void simns_add_serv(const char *name, const char *proto, int port);
